@@ -402,6 +402,15 @@ Definition check_c17 := check_with mon_c17.
 (* every monitor at once (any family) *)
 Definition check_lst := check_with (fun k => mon_c14 k && mon_c15 k && mon_c16 k && mon_c17 k).
 
+(* ---- the configuration as the application reads it (src/config.rs Config::read: file + secret file + environment):
+   what the operator wrote is what the listener is started with.  [strs]: (set, read) for the auth secret (secret file) and the Mojang server id (environment);
+   [nums]: (set, read) for the timeout (environment) ---- *)
+Inductive envcase := ENVC (strs : list (bytes * bytes)) (nums : list (Z * Z)).
+Definition check_env (c : envcase) : Z :=
+  match c with
+  | ENVC strs nums => if forallb (fun p => beq (fst p) (snd p)) strs && forallb (fun p => fst p =? snd p) nums then 0 else 3
+  end.
+
 (* diagnostics for the driver: which part failed *)
 Definition diag (k : lstcase) : list (Z * output) * list bool :=
   match k with
